@@ -69,9 +69,6 @@ def classify(op, c, m):
     if is_dump_line(op) or op.startswith("LOAD "):
         return "diff"
     crashed = c.startswith("crash") or c == "timeout" or c in ("<missing>",)
-    if m.startswith("known:") or " known:" in m:
-        # excluded input classes (defects F40 hang, F41 assert, F42 exit 0 on a malformed -N/-I/-H level): counted, not compared
-        return "benign"
     if crashed:
         return "diff"
     if op.startswith(("LRT ", "NI ")) and c.startswith("same=0"):
@@ -199,36 +196,12 @@ class ToolsEngine(DiffEngine):
                                  "seed": 0, "replay": self.replay_text(binp, workdir, ops)})
         return n, problems
 
-    def known_probes(self, binp, workdir):
-        """the excluded defect classes, probed with a short time limit: reported as KNOWN-FINDING lines, never as violations"""
-        hits = []
-        for f in sorted(glob.glob(os.path.join(ROOT, "corpus", "tools-known", "*.ops"))):
-            ops = [l for l in read_lines(f) if l and not l.startswith("#")]
-            d = os.path.join(workdir, "known")
-            os.makedirs(d, exist_ok=True)
-            p, c, m, minp = [os.path.join(d, x) for x in ("ops.txt", "c.out", "m.out", "min.txt")]
-            open(p, "w").write("\n".join(ops) + "\n")
-            env = self._env(leaks=False, workdir=workdir, tmp=os.path.join(d, "tmp"))
-            env["VERIF_TOOLS_TIMEOUT"] = "3"
-            run([binp, "--replay", p, c, minp], env=env)
-            run_model(self.engine, minp, m, self.model_args)
-            cl, ml, mi = read_lines(c), read_lines(m), read_lines(minp)
-            for o, ci, mi_ in zip(mi, cl, ml):
-                if "known:" in mi_:
-                    fid = mi_.split("known:")[1].split()[0]
-                    still = (fid.startswith("F40") and ci == "timeout") or (fid.startswith("F41") and ci.startswith("crash")) or (fid.startswith("F43") and ci.startswith("crash")) or \
-                            (fid.startswith("F42") and ci.startswith("rc=0"))
-                    if still:
-                        hits.append("%s still present: `%s` -> %s" % (fid, o[:120], ci[:60]))
-        return hits
-
     def run_engine(self, tier, seed):
         binp = build_tools_harness()
         workdir = os.path.join(BUILD, "run", "%s-%s" % (self.engine, os.getpid()))
         shutil.rmtree(workdir, ignore_errors=True)
         os.makedirs(workdir)
         ncorpus, problems = self.run_corpus(binp, workdir)
-        known_hits = self.known_probes(binp, workdir)
         nruns, n = self.sizes[tier]
         seeds = [int(seed) * 1000003 + i for i in range(nruns)]
         with ThreadPoolExecutor(NPROC) as ex:
@@ -243,7 +216,7 @@ class ToolsEngine(DiffEngine):
                 if is_dump_line(o) or o.startswith("LOAD "):
                     continue
                 distinct.add(hashlib.md5((o + "|" + c).encode()).digest()[:8])
-                kind = ("known" if "known:" in m else "skipped" if m.startswith("skip:") else "stdout-unpredicted" if m == "rc=0 out=?"
+                kind = ("skipped" if m.startswith("skip:") else "stdout-unpredicted" if m == "rc=0 out=?"
                         else "compared-ok" if c.startswith("rc=0") or "same=1" in c or "equiv=1" in c else "compared-rejected")
                 verdicts[kind] = verdicts.get(kind, 0) + 1
         for r in results:
@@ -263,11 +236,11 @@ class ToolsEngine(DiffEngine):
         shutil.rmtree(workdir, ignore_errors=True)
         return {"evaluations": total, "distinct_nontrivial": len(distinct), "benign_repr_diffs": benign,
                 "distribution": stats, "verdict_kinds": verdicts, "buckets_hit": len(stats), "corpus_cases": ncorpus,
-                "problems": problems, "known_hits": known_hits, "samples": sample, "rule": self.rule}
+                "problems": problems, "samples": sample, "rule": self.rule}
 
 
 ENGINE = ToolsEngine("tools", classify=classify, stateful=False,
-                     sizes={"quick": (8, 170), "thorough": (24, 1300)},
+                     sizes={"quick": (8, 350), "thorough": (24, 1300)},
                      rule="each run loads topologies (generated synthetic descriptions incl. attached NUMA nodes, caches, groups, "
                           "non-trivial os_index orders, > 64 PUs; bundled XML files with I/O and Misc objects) as each tool loads them and "
                           "runs the real tools in forked children: hwloc-calc on generated option/location lists (all operators, the "
